@@ -386,10 +386,10 @@ example : run frontcfWorld (lowerCF frontcfEarly) [0xec, 0x3c, 0] 40 = .values [
 /-!
 ### the full statements (NOT proved)
 
-    theorem frontcf_refines (f : Function) (hwt : wellTyped f = true) (args) (hargs : ArgsOK f.sig args) w ec mc :
+    [not proved] theorem frontcf_refines (f : Function) (hwt : wellTyped f = true) (args) (hargs : ArgsOK f.sig args) w ec mc :
         (∀ n, runSpec f args n ≠ .exhausted → ∃ k, ∀ fuel, run w (lowerCF f) (ec :: mc :: args) (fuel + k) = ofSpecCF (runSpec f args n)) ∧
         (∀ fuel o, run w (lowerCF f) (ec :: mc :: args) fuel = o → o ≠ .outOfFuel → ∃ n, ofSpecCF (runSpec f args n) = o)
-    theorem frontcf_wellFormed (f : Function) (hwt : wellTyped f = true) : wellFormedA (lowerCF f) = true
+    [not proved] theorem frontcf_wellFormed (f : Function) (hwt : wellTyped f = true) : wellFormedA (lowerCF f) = true
 
 Missing: `wellTyped f → validate f = true` and `wellTyped f → wellFormedA (lowerCF f) = true`, i.e. the correctness
 of the incremental SSA construction `findValue` / `Seal` (Braun et al.): that the values the builder finds for a
